@@ -24,10 +24,13 @@ def build_vec(v, rng, style):
             if x != MASKED:
                 a[i] = x
         return a
+    # values that are no flags (0 and 7 in the abstract vectors) are written in spellings that a narrowing cast would turn
+    # into flags: non-integral floats, integers congruent to a flag modulo 256
     if style == "f64":
-        return np.array(v, dtype="float64")
+        return np.array([rng.choice([3.5, 4.9, 0.0, 260.0]) if x == 0 else (rng.choice([7.0, 1.5, 9.25]) if x == 7 else x) for x in v],
+                        dtype="float64")
     if style == "i64":
-        return np.array(v, dtype="int64")
+        return np.array([rng.choice([0, 260, -252]) if x == 0 else (rng.choice([7, 265, 513]) if x == 7 else x) for x in v], dtype="int64")
     return np.array(v, dtype="uint8")
 
 
